@@ -54,6 +54,24 @@ theorem v8_rx (h : Handler) (d : List UInt8) :
   rcases d with _ | ⟨a, _ | ⟨b, _ | ⟨c, _ | ⟨e, _ | ⟨f, r⟩⟩⟩⟩⟩ <;>
     simp [BV.Src.HdrV8.frame_rx, bind, PyM.bind, PyM.lift, byteAt, pure, PyM.pure, rxHeader, Except.toOption, sliceFrom, u16de]
 
+/-- the classes a parser raises on a frame too short for its header: none of them escapes an `except Exception` -/
+def shortClasses : List String := ["IndexError", "ValueError"]
+
+theorem v4_rx_cls (h : Handler) (d : List UInt8) (hn : rxHeader .v4 d = none) :
+    ∃ c, c ∈ shortClasses ∧ (BV.Src.HdrV4.frame_rx d h).1 = .error (.raised c) := by
+  rcases d with _ | ⟨a, _ | ⟨b, _ | ⟨c, r⟩⟩⟩ <;>
+    simp [BV.Src.HdrV4.frame_rx, bind, PyM.bind, PyM.lift, byteAt, pure, PyM.pure, rxHeader, sliceFrom, shortClasses] at hn ⊢
+
+theorem v5_rx_cls (h : Handler) (d : List UInt8) (hn : rxHeader .v5 d = none) :
+    ∃ c, c ∈ shortClasses ∧ (BV.Src.HdrV5.frame_rx d h).1 = .error (.raised c) := by
+  rcases d with _ | ⟨a, _ | ⟨b, _ | ⟨c, _ | ⟨e, _ | ⟨f, r⟩⟩⟩⟩⟩ <;>
+    simp [BV.Src.HdrV5.frame_rx, bind, PyM.bind, PyM.lift, byteAt, pure, PyM.pure, rxHeader, sliceFrom, shortClasses] at hn ⊢
+
+theorem v8_rx_cls (h : Handler) (d : List UInt8) (hn : rxHeader .v8 d = none) :
+    ∃ c, c ∈ shortClasses ∧ (BV.Src.HdrV8.frame_rx d h).1 = .error (.raised c) := by
+  rcases d with _ | ⟨a, _ | ⟨b, _ | ⟨c, _ | ⟨e, _ | ⟨f, r⟩⟩⟩⟩⟩ <;>
+    simp [BV.Src.HdrV8.frame_rx, bind, PyM.bind, PyM.lift, byteAt, pure, PyM.pure, rxHeader, sliceFrom, u16de, shortClasses] at hn ⊢
+
 /-- version of the class that `hdrOf` stands for -/
 def hdrClass : Hdr → Nat
   | .v4 => 4
